@@ -53,6 +53,30 @@ Section Gen.
       inversion Hbad; subst. reflexivity.
   Qed.
 
+  (* a sent value the checker rejects (the wrapper has been used before): send() raises the checker's exception, the generator
+     is not resumed, the wrapper is unchanged *)
+  Lemma w_send_bad_send : forall w v e,
+    w_init w = true -> fst (check st_ v (w_tv w)) = Raise e -> w_send w v = (WRaise e, w).
+  Proof.
+    intros w v e Hi Hbad. unfold GenWrapper.w_send. rewrite Hi.
+    destruct (check st_ v (w_tv w)) as [[u|e'] tv']; simpl in Hbad; [discriminate|]. now inversion Hbad.
+  Qed.
+
+  (* the generator returns a value the checker rejects: the caller gets the checker's exception instead of StopIteration(value) *)
+  Lemma w_send_bad_return : forall w v r g' e,
+    inner_send body (w_inner w) v = (IStop r, g') ->
+    (w_init w = true -> exists tv', check st_ v (w_tv w) = (Ok tt, tv')) ->
+    (forall tv, fst (check rt r tv) = Raise e) ->
+    fst (w_send w v) = WRaise e.
+  Proof.
+    intros w v r g' e Hi Hpre Hbad. unfold GenWrapper.w_send. rewrite Hi.
+    destruct (w_init w).
+    - destruct (Hpre eq_refl) as [tv' E]. rewrite E. specialize (Hbad tv'). destruct (check rt r tv') as [[u|e'] tv2]; simpl in Hbad; [discriminate|].
+      inversion Hbad; subst. reflexivity.
+    - specialize (Hbad (w_tv w)). destruct (check rt r (w_tv w)) as [[u|e'] tv2]; simpl in Hbad; [discriminate|].
+      inversion Hbad; subst. reflexivity.
+  Qed.
+
   Definition no_throw (o : gop) : bool := match o with OpThrow _ => false | _ => true end.
 
   (* C03, generators: every value next()/send() hands to the caller, and every value carried by the final
